@@ -74,7 +74,22 @@ def objects():
     _OBJ["darr"] = DictArrayTemplate(["a", "b"], ["c", "d"]).wrap([[1, 2], [3, 4]])
     _OBJ["trees"] = ScoredTreeCollection([(-10.5, make_tree("((a,b),c,d);")), (-11.0, make_tree("((a,c),b,d);"))])
     _OBJ["open_"] = _OpenWriter()
+    # content production that is INTERRUPTED inside the with-block (BaseException, not Exception)
+    t = make_table(header=["name", "x", "y"], data=[["a", 1, 2.5], ["b", 3, 4.5]])
+    t.format_column("x", _sigint_when_armed)  # a column formatting callback during to_string(): Ctrl-C
+    _OBJ["table_intr"] = t
+    exiting = make_tree("((a,c),b,d);")
+    exiting.get_newick = _sys_exit  # sys.exit() while the second tree is rendered
+    _OBJ["trees_exit"] = ScoredTreeCollection([(-10.5, make_tree("((a,b),c,d);")), (-11.0, exiting)])
+    kbd = make_aligned_seqs(data, moltype="dna")
+    kbd.to_json = _sigint  # Ctrl-C while the json is produced
+    _OBJ["aln_intr"] = kbd
     return _OBJ
+
+
+def _line_writer(rows, has_header=False):
+    """a caller supplied line writer for Table.write(writer=...)"""
+    return ["|".join(str(c) for c in row) for row in rows]
 
 
 class _OpenWriter:
@@ -90,9 +105,40 @@ class _OpenWriter:
             out.write(">s2\nACGA\n")
 
 
+class _InterruptingOrder(list):
+    """a sequence-name order whose iteration is interrupted (Ctrl-C while the formatter runs)"""
+
+    def __iter__(self):
+        _sigint()
+
+
+def _sigint(*args, **kwargs):
+    import signal
+
+    signal.raise_signal(signal.SIGINT)  # real SIGINT: Python raises KeyboardInterrupt in the running frame
+    raise KeyboardInterrupt("C19: SIGINT was not delivered as KeyboardInterrupt")
+
+
+_ARMED = [False]  # set in the forked child that performs the write
+
+
+def _sigint_when_armed(value):
+    if _ARMED[0]:
+        _sigint()
+    return str(value)
+
+
+def _sys_exit(*args, **kwargs):
+    raise SystemExit(3)
+
+
 def call(case: Case, path: str):
     obj = objects()[case.writer]
-    return obj.write(path, **dict(case.kwargs))
+    kw = dict(case.kwargs)
+    _ARMED[0] = case.scenario == "interrupt"
+    if kw.get("order") == "<interrupting>":
+        kw["order"] = _InterruptingOrder(obj.names)
+    return obj.write(path, **kw)
 
 
 # --------------------------------------------------------------------- content
@@ -147,6 +193,11 @@ def cases(tier: str):
         Case("aln", "x.bogus", "seqfmt", "fmtfail"),
         Case("table4", "x.bedgraph", "table", "fmtfail"),
         Case("tree_unser", "x.json", "with", "fmtfail"),
+        # the body is interrupted by a BaseException that is not an Exception (real SIGINT / SystemExit)
+        Case("aln", "x.fasta", "seqfmt", "interrupt", kwargs=(("order", "<interrupting>"),)),
+        Case("table_intr", "x.md", "table", "interrupt"),
+        Case("trees_exit", "x.trees", "with", "interrupt"),
+        Case("aln_intr", "x.json", "with", "interrupt"),
         # public writers given a ".zip" path (no in_zip): the archive must be replaced as a whole or left untouched
         # (writers that refuse such a path must refuse cleanly); quick drives them with a reduced set of fault variants
         Case("darr", "x.tsv.zip", None, target="zip"),
@@ -196,6 +247,11 @@ def cases(tier: str):
     t.append(Case("darr", "x.tsv.gz", "with"))
     t.append(Case("darr", "x.csv", "with", kwargs=(("format", "csv"), ("sep", ","))))
     t.append(Case("darr", "x.tsv.zip", None, target="zip"))
+    t.append(Case("aln", "x.fasta.gz", "seqfmt", "interrupt", kwargs=(("order", "<interrupting>"),)))
+    t.append(Case("table_intr", "x.md.gz", "table", "interrupt"))
+    t.append(Case("trees_exit", "x.trees.gz", "with", "interrupt"))
+    t.append(Case("aln_intr", "x.json.gz", "with", "interrupt"))
+    t.append(Case("table", "x.tsv", "table", kwargs=(("writer", _line_writer),)))
     t.append(Case("table", "x.json.zip", None, target="zip"))
     t.append(Case("tree", "x.json.zip", None, target="zip"))
     # open_ in write mode on a zip archive
